@@ -57,6 +57,10 @@ class Executor(Exec):
                 return self.eval_at_entry(node.args[0], st)
             if f.id in ("all", "any") and len(node.args) == 1 and isinstance(node.args[0], ast.GeneratorExp):
                 return self.quantifier(f.id, node.args[0], st)
+            if f.id == "sum" and len(node.args) == 1 and isinstance(node.args[0], (ast.GeneratorExp, ast.ListComp)):
+                r = self.sum_over_range(node.args[0], st)
+                if r is not None:
+                    return r
             if f.id == "implies" and self.spec:
                 a = self.truth(st, self.eval(node.args[0], st))
                 if z3.is_false(z3.simplify(a)):
@@ -158,6 +162,48 @@ class Executor(Exec):
         o.writelog = None
         return self.eval(expr, o)
 
+    def sum_over_range(self, gen, st):
+        """sum(f(j) for j in range(lo, hi))  ->  rsum(lambda j. f(j), lo, hi)   (index = value, so sums over
+        different sub-ranges of the same generator share one array term);
+        sum(f(x) for x in seq if c(x))      ->  rsum(lambda j. ite(c(seq[j]), f(seq[j]), 0), 0, len(seq))"""
+        if len(gen.generators) != 1:
+            return None
+        g = gen.generators[0]
+        if not isinstance(g.target, ast.Name):
+            return None
+        it = self.eval(g.iter, st)
+        from . import lib_models
+        j = z3.Int(f"sj%{len(self.binder_marks)}")
+        saved_env = st.env
+        st.env = dict(st.env)
+        mark = len(st.pc)
+        if isinstance(it, VRange):
+            st.env[g.target.id] = VInt(j)
+            lo, hi = it.lo, it.hi
+        elif isinstance(it, VSeq) and isinstance(it.et, TInt):
+            st.env[g.target.id] = self.seq_get(it, j)
+            lo, hi = z3.IntVal(0), it.ln
+        else:
+            st.env = saved_env
+            return None
+        st.pc.append(z3.And(lo <= j, j < hi))
+        self.binder_marks.append(([j], mark))
+        try:
+            cond = None
+            for c in g.ifs:
+                cv = self.truth(st, self.eval(c, st))
+                cond = cv if cond is None else z3.And(cond, cv)
+            v = as_int(self.eval(gen.elt, st))
+            if cond is not None:
+                v = z3.If(cond, v, z3.IntVal(0))
+        finally:
+            self.binder_marks.pop()
+            self.close_binder(st, mark, [j])
+            st.env = saved_env
+        self.lib_used.add("sum() over a range / filtered sequence = rsum(lambda, lo, hi): finite sum with unfolding / "
+                          "extensionality / non-negativity axioms (T-rangesum, trusted)")
+        return VInt(lib_models.rsum(z3.Lambda([j], v), lo, hi))   # empty when hi <= lo (axiom)
+
     def quantifier(self, kind, gen, st):
         if len(gen.generators) != 1:
             raise Unsupported("nested quantifier generator")
@@ -244,14 +290,21 @@ class Executor(Exec):
                     fi = cand[name]
                     break
         c = None
+        mname_ = fi.name if fi is not None else name
         for k in mro:
-            cand = CONTRACTS.get(f"{k}.{fi.name if fi is not None else name}")
-            if cand is None:
-                continue
-            # a base-class contract covers an override only if the override is verified against it
-            if fi is None or fi.cls == k or cls in cand.contexts or fi.cls in cand.contexts:
+            # a contract written for this very receiver class: "Base.method@Receiver"
+            cand = CONTRACTS.get(f"{k}.{mname_}@{cls}")
+            if cand is not None and (fi is None or fi.cls == k):
                 c = cand
                 break
+            cand = CONTRACTS.get(f"{k}.{mname_}")
+            if cand is None:
+                continue
+            # a contract covers a call only for receiver classes it is verified for (the body may dispatch on self)
+            if cls in cand.contexts or not cand.contexts:
+                if fi is None or fi.cls == k or cls in cand.contexts:
+                    c = cand
+                    break
         if c is not None:
             return self.call_contract(st, c, recv, args, kwargs, fi)
         if fi is not None:
@@ -338,6 +391,8 @@ class Executor(Exec):
                     env[gname] = st.env[gname]      # closure / ghost variables come from the caller's scope
                 else:
                     raise Unsupported(f"call of {c.key}: closure variable {gname} not in scope")
+        for lname, ltext in c.let:
+            env[lname] = self.spec_eval(st, ltext, env, f"{c.key}.let.{lname}")
         # 1. preconditions
         for name, text in c.requires:
             g = self.spec_truth(st, text, env, f"{c.key}.requires.{name}")
